@@ -1738,6 +1738,78 @@ pub fn method_value_family() -> Vec<Prog> {
     .collect()
 }
 
+
+// ------------------------------------------------------------------------------------------------
+// values whose target representation could be mistaken for an enum tag, and target-language names
+// ------------------------------------------------------------------------------------------------
+
+/// Enums with k nullary variants and one or two variants whose payload is a single-field struct (such
+/// a variant can be represented by the payload object itself): the payload's field takes the small
+/// values that the tags of the nullary variants are encoded with, so a variant test that compares
+/// loosely could take a payload for a tag.
+pub fn tag_collision_family() -> Vec<Prog> {
+  let mut out = vec![];
+  for nullary in 1..=3usize {
+    for (pname, pdecl, mk, show) in [
+      ("int-field", "class Box(val v: int) {}", "Box.init(N)", "Str.fromInt(b.v)"),
+      ("bool-field", "class Box(val v: bool) {}", "Box.init(N % 2 == 1)", "(if b.v { \"t\" } else { \"f\" })"),
+      ("two-fields", "class Box(val v: int, val w: int) {}", "Box.init(N, N)", "Str.fromInt(b.v + b.w)"),
+      ("nested-box", "class Inner(val v: int) {}\nclass Box(val i: Inner) {}", "Box.init(Inner.init(N))", "Str.fromInt(b.i.v)"),
+    ] {
+      let tags = ["A", "B", "C"];
+      let variants = tags[..nullary].join(", ");
+      let arms = tags[..nullary].iter().map(|t| format!("{t} -> \"{t}\"")).collect::<Vec<_>>().join(", ");
+      let mut main = String::new();
+      for n in 0..8 {
+        main.push_str(&format!("    Process.println(Main.show(E.P({})));\n", mk.replace('N', &format!("Main.n({n})"))));
+      }
+      for t in &tags[..nullary] {
+        main.push_str(&format!("    Process.println(Main.show(E.{t}()));\n"));
+      }
+      let text = format!(
+        "{pdecl}\nclass E({variants}, P(Box)) {{}}\nclass Main {{\n  function n(k: int): int = Str.fromInt(k).toInt()\n  function show(e: E): Str = match e {{ {arms}, P(b) -> \"P \" :: {show} }}\n  function isFirst(e: E): bool = match e {{ A -> true, _ -> false }}\n  function main(): unit = {{\n{main}    Process.println(if Main.isFirst(E.P({})) {{ \"first\" }} else {{ \"not first\" }})\n  }}\n}}\n",
+        mk.replace('N', "Main.n(1)")
+      );
+      out.push(Prog { family: "tag-collision", shape: format!("{nullary} nullary variants, payload {pname}"), name: format!("tag collision {nullary} nullary {pname}"), text });
+    }
+  }
+  out
+}
+
+/// Identifiers that are reserved words, globals or special names of a target language (JavaScript /
+/// TypeScript, the Wasm text format) or equal compiler-generated names, in every position where the
+/// source name could survive into the emitted code: parameter of a recursive function, loop variable of
+/// a tail-recursive function, local, lambda parameter, captured variable, pattern variable, field,
+/// method, function.
+pub fn target_names_family() -> Vec<Prog> {
+  let names = [
+    "delete", "new", "typeof", "void", "in", "of", "instanceof", "switch", "case", "default", "do", "for", "while", "with",
+    "yield", "await", "async", "enum", "export", "extends", "super", "throw", "try", "catch", "finally", "debugger",
+    "arguments", "eval", "null", "undefined", "number", "any", "never", "static", "get", "set", "constructor",
+    "prototype", "toString", "valueOf", "length", "hasOwnProperty", "name", "call", "apply", "bind",
+    "local", "param", "func", "result", "loop", "block", "br", "i32", "ref", "struct", "array", "memory", "table", "global", "elem", "data", "start",
+    "init", "main", "_t1", "_t0", "_this", "_builtin", "tmp", "f", "g", "v0",
+  ];
+  // only names that are lower-case identifiers of the language and not keywords of it
+  let samlang_keywords = [
+    "import", "from", "class", "interface", "val", "function", "method", "as", "private", "protected", "internal", "public", "if", "then", "else",
+    "match", "return", "int", "string", "bool", "unit", "true", "false", "this", "self", "const", "let", "var", "type", "constructor", "struct",
+    "enum", "extends", "implements", "exports", "assert",
+  ];
+  let mut out = vec![];
+  for name in names {
+    if samlang_keywords.contains(&name) || name.starts_with('_') {
+      continue;
+    }
+    let n = name;
+    let text = format!(
+      "class Rec(val {n}: int, val other: int) {{\n  method {n}(k: int): int = this.{n} + k\n  function {n}Twice(k: int): int = k * 2\n}}\nclass Main {{\n  function deep({n}: int, acc: int): int = if {n} <= 0 {{ acc }} else {{ 1 + Main.deep({n} - 1, acc) }}\n  function tail({n}: int, acc: int): int = if {n} <= 0 {{ acc }} else {{ Main.tail({n} - 1, acc + {n}) }}\n  function locals(k: int): int = {{\n    let {n} = k + 1;\n    let f = ({n}2: int) -> {n}2 + {n};\n    let g = (x: int) -> {{ let {n}3 = x * 2; {n}3 + {n} }};\n    f(1) + g(2)\n  }}\n  function lam(k: int): int = {{\n    let h = ({n}: int) -> {n} * 3;\n    h(k)\n  }}\n  function pat(r: Rec): int = {{\n    let {{ {n}, other }} = r;\n    {n} * 10 + other\n  }}\n  function main(): unit = {{\n    let k = \"3\".toInt();\n    Process.println(Str.fromInt(Main.deep(k, 100)));\n    Process.println(Str.fromInt(Main.tail(k, 0)));\n    Process.println(Str.fromInt(Main.locals(k)));\n    Process.println(Str.fromInt(Main.lam(k)));\n    Process.println(Str.fromInt(Main.pat(Rec.init(k, 4))));\n    Process.println(Str.fromInt(Rec.init(k, 4).{n}(5) + Rec.{n}Twice(k)))\n  }}\n}}\n"
+    );
+    out.push(Prog { family: "target-names", shape: format!("identifier `{n}`"), name: format!("target name {n}"), text });
+  }
+  out
+}
+
 pub fn all_families(thorough: bool) -> Vec<Prog> {
   let mut v = vec![];
   v.extend(type_shape_family(thorough));
@@ -1756,6 +1828,8 @@ pub fn all_families(thorough: bool) -> Vec<Prog> {
   v.extend(function_value_family());
   v.extend(method_value_family());
   v.extend(vec_eq_family());
+  v.extend(tag_collision_family());
+  v.extend(target_names_family());
   v.extend(vec_family(thorough));
   v.extend(string_family());
   v.extend(pattern_family());
